@@ -273,8 +273,7 @@ Definition delete_from (o : obj) (n : string) (idx : option Z) (val : option ava
     match mfield_of_name n with
     | None => Err RInvalidField
     | Some f =>
-      (* the current value is unwrapped: a Name becomes its text, the other two a row object; then `if attribute_value:` -
-         an EMPTY name text is falsy and falls through to the index / delete-all branches *)
+      (* the current value is unwrapped (a Name becomes its text, the other two a row object) and tested `is not None` *)
       let by_value (c : aval) :=
         match first_index c (mget f o) with Some i => Ok (ERemove f i) | None => Err RItemNotFound end in
       let by_index :=
@@ -285,8 +284,7 @@ Definition delete_from (o : obj) (n : string) (idx : option Z) (val : option ava
       match val with
       | Some c =>
         match f, c with
-        | FNames, VText t => if String.eqb t "" then by_index else by_value c
-        | FAsi, VAsi _ _ | FGroups, VText _ => by_value c
+        | FNames, VText _ | FAsi, VAsi _ _ | FGroups, VText _ => by_value c
         | _, _ => Err RCrash
         end
       | None => by_index
